@@ -468,6 +468,150 @@ theorem go_run_args_eq {cs : List Tree} {roots : List Root}
     by_cases hpp : (pp == "") = true <;>
       simp [hpp, runRaw, fixedArgs, hv', hg', hvt, hgr, argSym, pure, Except.pure]
 
+
+/-! ## 6. the property, for the translated code -/
+
+/-- reading an argument back from the string (left inverse of `argSym`) -/
+def symArg : Sym → Option Arg
+  | .lit s =>
+    if s = "--go_out=." then some (.out .go)
+    else if s = "--go-vtproto_out=." then some (.out .vt)
+    else if s = "--go-grpc_out=." then some (.out .grpc)
+    else if s = "--go_opt=paths=source_relative" then some (.optPaths .go)
+    else if s = "--go-vtproto_opt=paths=source_relative,features=marshal+unmarshal+size+equal+clone+pool" then some (.optPaths .vt)
+    else if s = "--go-grpc_opt=paths=source_relative" then some (.optPaths .grpc)
+    else if s = "--fatal_warnings" then some .fatalWarnings
+    else none
+  | .cat (.lit f) (.absP p) => if f = "-I=" then some (.incl p) else none
+  | .cat (.lit f) (.cat (.cat (.relP rel) (.lit e)) (.lit pkg)) =>
+    if e = "=" then
+      if f = "--go_opt=M" then some (.mapping .go rel pkg)
+      else if f = "--go-vtproto_opt=M" then some (.mapping .vt rel pkg)
+      else if f = "--go-grpc_opt=M" then some (.mapping .grpc rel pkg)
+      else none
+    else none
+  | .firstP p => some (.file p)
+  | _ => none
+
+omit pkgOf linesOf fs rq pp in
+theorem symArg_argSym (a : Arg) : symArg (argSym a) = some a := by
+  cases a with
+  | out p => cases p <;> simp [argSym, symArg]
+  | optPaths p => cases p <;> simp [argSym, symArg]
+  | fatalWarnings => simp [argSym, symArg]
+  | incl p => simp [argSym, symArg]
+  | mapping pl rel pkg => cases pl <;> simp [argSym, symArg]
+  | file p => simp [argSym, symArg]
+
+omit pkgOf linesOf fs rq pp in
+theorem argSym_injective {a b : Arg} (h : argSym a = argSym b) : a = b := by
+  have := congrArg symArg h
+  simpa [symArg_argSym] using this
+
+omit pkgOf linesOf fs rq pp in
+theorem mem_map_argSym (a : Arg) (l : List Arg) : argSym a ∈ l.map argSym ↔ a ∈ l := by
+  constructor
+  · intro h
+    obtain ⟨b, hb, hab⟩ := List.mem_map.1 h
+    rw [← argSym_injective hab]; exact hb
+  · exact fun h => List.mem_map.2 ⟨a, h, rfl⟩
+
+omit pkgOf linesOf fs rq pp in
+theorem count_map_argSym (a : Arg) (l : List Arg) : (l.map argSym).count (argSym a) = l.count a := by
+  induction l with
+  | nil => rfl
+  | cons b l ih =>
+    simp only [List.map_cons, List.count_cons, ih]
+    by_cases h : b = a
+    · simp [h]
+    · have : argSym b ≠ argSym a := fun e => h (argSym_injective e)
+      simp [h, this]
+
+omit pkgOf linesOf fs rq pp in
+/-- the symbolic argument concretises to the model's rendering (the strings protoc gets; a file operand
+as the model shows it) -/
+theorem conc_argSym (a : Arg) : (argSym a).conc = a.render := by
+  cases a with
+  | out p => cases p <;> rfl
+  | optPaths p => cases p <;> rfl
+  | fatalWarnings => rfl
+  | incl p => rfl
+  | file p => rfl
+  | mapping pl rel pkg =>
+    cases pl <;> simp only [argSym, Sym.conc, Arg.render, Plugin.flag, String.append_assoc] <;> rfl
+
+/-- what the restated theorems assume of the INPUT: the input directory and every include directory
+exist, the input directory's spelling has no `=`, and a file's `goPkg` bit says what its lines say -/
+structure Inputs (cs : List Tree) (incs : List Root) : Prop where
+  noEq : '=' ∉ rq.inputDir.toList
+  input : lookupDir fs rq.config.input = some cs
+  includes : rq.includes.mapM (resolveRoot fs rq.cwd) = some incs
+  bits : ∀ r ∈ (⟨rq.config.input, none, cs⟩ : Root) :: incs,
+    ∀ f ∈ Gogenproto.findProtos (inclCtx rq.config) r.abs r.children, f.goPkg = hasOpt (linesOf f.path)
+
+/-- the translated `Run` hands protoc exactly the model's `run` -/
+theorem go_run_eq_run {cs : List Tree} {incs : List Root} (hI : Inputs linesOf fs rq cs incs) :
+    Generated.GoGogenproto.run (E) (gen rq pp) =
+      pure (.lit (if pp == "" then "protoc" else pp), (Gogenproto.run pkgOf rq.config cs incs).map argSym) := by
+  have hroot : resolveRoot fs rq.cwd rq.inputDir = some ⟨rq.config.input, none, cs⟩ := by
+    have : absPath rq.cwd rq.inputDir = rq.config.input := rfl
+    simp [resolveRoot, cut_noEq _ hI.noEq, this, hI.input]
+  have hroots : (rq.inputDir :: rq.includes).mapM (resolveRoot fs rq.cwd)
+      = some ((⟨rq.config.input, none, cs⟩ : Root) :: incs) := by
+    simp [List.mapM_cons, hroot, hI.includes]
+  exact go_run_args_eq pkgOf linesOf fs rq pp hI.input hroots hI.bits
+
+section restated
+variable {cs : List Tree} {incs : List Root} (hI : Inputs linesOf fs rq cs incs)
+  {path : Sym} {args : List Sym}
+  (hrun : Generated.GoGogenproto.run (symEnv pkgOf linesOf fs rq) (gen rq pp) = pure (path, args))
+include hI hrun
+
+theorem args_eq : args = (Gogenproto.run pkgOf rq.config cs incs).map argSym := by
+  rw [go_run_eq_run pkgOf linesOf fs rq pp hI] at hrun
+  injection hrun with h
+  exact (congrArg Prod.snd h).symm
+
+/-- `protos_exactly_once` for the translated code -/
+theorem go_protos_exactly_once (hwf : WFL cs) (p : Path) :
+    (InScope rq.config.recurse rq.config.input cs p → args.count (argSym (.file p)) = 1) ∧
+    (¬ InScope rq.config.recurse rq.config.input cs p → args.count (argSym (.file p)) = 0) := by
+  rw [args_eq pkgOf linesOf fs rq pp hI hrun, count_map_argSym]
+  exact protos_exactly_once pkgOf rq.config cs incs hwf p
+
+/-- `includes_present` for the translated code -/
+theorem go_includes_present :
+    args.filterMap (fun s => (symArg s).bind Arg.inclOf) = rq.config.input :: incs.map (·.abs) := by
+  rw [args_eq pkgOf linesOf fs rq pp hI hrun, List.filterMap_map]
+  have : ((fun s => (symArg s).bind Arg.inclOf) ∘ argSym) = Arg.inclOf := by
+    funext a; simp [symArg_argSym]
+  rw [this]
+  exact includes_present pkgOf rq.config cs incs
+
+/-- `mapping_iff_no_go_package` for the translated code -/
+theorem go_mapping_iff_no_go_package (hok : ∀ r ∈ incs, RootOK rq.config r) (pl : Plugin) (rel : Path)
+    (pkg : String) :
+    argSym (.mapping pl rel pkg) ∈ args ↔
+      rq.config.requested pl = true ∧ ∃ r ∈ (⟨rq.config.input, none, cs⟩ : Root) :: incs, ∃ dirs n,
+        HasFile r.children dirs n true false ∧ EndsWithProto n ∧ rel = dirs ++ [n] ∧
+          pkg = specPkg pkgOf r dirs := by
+  rw [args_eq pkgOf linesOf fs rq pp hI hrun, mem_map_argSym]
+  exact mapping_iff_no_go_package pkgOf rq.config cs incs hok pl rel pkg
+
+/-- `plugins_iff_flags` for the translated code -/
+theorem go_plugins_iff_flags (pl : Plugin) :
+    (argSym (.out pl) ∈ args ↔ rq.config.requested pl = true) ∧
+    (argSym (.optPaths pl) ∈ args ↔ rq.config.requested pl = true) := by
+  rw [args_eq pkgOf linesOf fs rq pp hI hrun, mem_map_argSym, mem_map_argSym]
+  exact plugins_iff_flags pkgOf rq.config cs incs pl
+
+/-- the protoc that is started: `-protoc-path` when given, `protoc` otherwise -/
+theorem go_protoc_path : path = .lit (if pp == "" then "protoc" else pp) := by
+  rw [go_run_eq_run pkgOf linesOf fs rq pp hI] at hrun
+  injection hrun with h
+  exact (congrArg Prod.fst h).symm
+end restated
+
 end run
 
 end C20Tie
